@@ -10,6 +10,7 @@ CONSTANTS NMsg,        \* number of messages in flight (distinct packet IDs 1..N
           MaxDeliv,    \* deliveries (incl. duplicates and bogus fragments)
           GridD, GridH, GridL,   \* arithmetic grid: data lengths, header sizes, limits
           DupCheck,    \* FALSE: a duplicate fragment is counted again (mutant for non-vacuity)
+          FreshPktID,  \* TRUE: every message carries its own packet ID (FALSE: the sender reuses one - mutant)
           FixCount     \* TRUE: count > 255 => discard (the property); FALSE: uint8 wrap (pre-fix code)
 
 VARIABLES cnt,         \* cnt[m] fragment count of message m
@@ -19,6 +20,7 @@ VARIABLES cnt,         \* cnt[m] fragment count of message m
 vars == <<cnt, dPkt, dSlots, dCount, nDeliv, gridDone, mon, hist>>
 
 Msgs == 1..NMsg
+PktOf(m) == IF FreshPktID THEN m ELSE 1
 
 \* ---------------- fragmenter (frag.go:7-34) ------------------------------
 \* returns the sequence of data lengths, <<>> for nil
@@ -61,9 +63,9 @@ FeedResult(f) ==   \* <<emitted, pieces, dPkt', dSlots', dCount'>>
 
 Deliver(m, fid, c) ==
   /\ nDeliv < MaxDeliv
-  /\ LET f == [msg |-> m, pkt |-> m, fid |-> fid, cnt |-> c]
+  /\ LET f == [msg |-> m, pkt |-> PktOf(m), fid |-> fid, cnt |-> c]
          r == FeedResult(f)
-         e == [ev |-> "Feed", scn |-> 0, msg |-> m, pkt |-> m, fid |-> fid, cnt |-> c,
+         e == [ev |-> "Feed", scn |-> 0, msg |-> m, pkt |-> PktOf(m), fid |-> fid, cnt |-> c,
                emitted |-> r[1], pieces |-> r[2], hdrOk |-> TRUE]
      IN /\ dPkt' = r[3] /\ dSlots' = r[4] /\ dCount' = r[5]
         /\ mon' = MonStep(mon, e, 0)
@@ -74,7 +76,7 @@ Deliver(m, fid, c) ==
 Init == /\ cnt \in [Msgs -> 1..MaxCnt]
         /\ dPkt = 0 /\ dSlots = <<>> /\ dCount = 0
         /\ nDeliv = 0 /\ gridDone = FALSE /\ hist = <<>>
-        /\ mon = [MonInit EXCEPT !.msgs = [m \in Msgs |-> [pkt |-> m, cnt |-> cnt[m]]]]
+        /\ mon = [MonInit EXCEPT !.msgs = [m \in Msgs |-> [pkt |-> PktOf(m), cnt |-> cnt[m]]]]
 
 Next == \/ Grid
         \/ \E m \in Msgs : \E fid \in 0..(IF cnt[m] > 1 THEN cnt[m] ELSE 0) : Deliver(m, fid, cnt[m])   \* fid = cnt[m] is the bogus index
